@@ -206,6 +206,19 @@ let run_case (line : string) : string =
               let k = nexti () in
               let i = nexti () in
               k, lift1 (fun x -> destroy_block ss x (nat_of_int i) draws) mslots.(k) draws, "-"
+          | "W" ->
+              let k = nexti () in
+              let show_loci ls = String.concat "" (List.map (fun l -> Printf.sprintf ",%d.%d" (int_of_nat l.l_index) (int_of_nat l.l_cat)) ls) in
+              let cnt =
+                match mslots.(k) with
+                | [x] ->
+                    (match active_loci x.i_gen, active_symbols x.i_gen, blocks x.i_gen with
+                     | Some w, Some n, Some b ->
+                         (* std::set<locus> blocks(): sorted = visiting order *)
+                         "w" ^ show_loci w ^ "|n" ^ string_of_int (int_of_nat n) ^ "|b" ^ show_loci b
+                     | _ -> "?")
+                | _ -> "?" in
+              k, Some (mslots.(k), draws), cnt
           | "C" ->
               let k = nexti () in
               k, lift1 (fun x -> match cse x with Some y -> Some (y, draws) | None -> None) mslots.(k) draws, "-"
